@@ -11,6 +11,7 @@ import GoMC.Props.C18
 #print axioms GoMC.Props.C18.C18_digest_zero
 #print axioms GoMC.Props.C18.C18_sides_agree
 #print axioms GoMC.Props.C18.C18_pem_text
+#print axioms GoMC.Props.C18.C18_pem_injective
 #print axioms GoMC.Props.C18.C18_verify_eq
 #print axioms GoMC.Props.C18.C18_verify_sound
 #print axioms GoMC.Props.C18.C18_pubkey_verify_sound
